@@ -1,7 +1,7 @@
 /-
 C28 deepening, step 3b: `StringBlock.getString` on the pool read back from an encoded pool gives the
 UTF-8 text of every string, for UTF-16 and UTF-8 pools (domain: BMP code points without
-surrogates, fewer than 128 UTF-16 units and fewer than 128 UTF-8 bytes).  Core Lean only.
+surrogates, fewer than 0x8000 UTF-16 units and fewer than 0x8000 UTF-8 bytes).  Core Lean only.
 -/
 import AgVerif.Proof.ArscPool
 namespace AgVerif.Arsc
@@ -20,9 +20,33 @@ theorem decodeLength_narrow_short {chars : List Nat} {off l1 l2 : Nat}
     decodeLength chars off false = some (l1, 1) := by
   simp [decodeLength, h0, h1, hs]
 
-theorem and_8000_small (x : Nat) (h : x < 128) : x &&& 0x8000 = 0 := by
-  have key : ∀ y : Fin 128, y.val &&& 0x8000 = 0 := by decide +kernel
-  exact key ⟨x, h⟩
+theorem and_8000_small (x : Nat) (h : x < 0x8000) : x &&& 0x8000 = 0 := by
+  apply Nat.eq_of_testBit_eq
+  intro i
+  simp only [Nat.testBit_and, Nat.zero_testBit]
+  by_cases hi : i = 15
+  · subst hi
+    rw [Nat.testBit_lt_two_pow (by simpa using h)]; rfl
+  · have : (0x8000 : Nat).testBit i = false := by
+      rw [show (0x8000 : Nat) = 2 ^ 15 from rfl, Nat.testBit_two_pow]; simpa using fun e => hi e.symm
+    rw [this, Bool.and_false]
+
+/-- the two-byte length form of a UTF-8 pool: first byte `0x80 + h` (`h < 128`), second byte `l` -/
+theorem len8_long_bits (h l : Nat) (hh : h < 128) (hl : l < 256) :
+    (0x80 + h) &&& 0x80 ≠ 0 ∧ (((0x80 + h) &&& 0x7F) <<< 8) ||| l = h * 256 + l := by
+  have k1 : ∀ y : Fin 128, (0x80 + y.val) &&& 0x80 ≠ 0 ∧ (0x80 + y.val) &&& 0x7F = y.val := by decide +kernel
+  obtain ⟨a, b⟩ := k1 ⟨h, hh⟩
+  refine ⟨a, ?_⟩
+  simp only at b
+  rw [b, Nat.or_comm, Bits.or_shl l h 8 (by simpa using hl)]
+  omega
+
+theorem decodeLength_narrow_long {chars : List Nat} {off h l : Nat}
+    (h0 : lget chars off = some (0x80 + h)) (h1 : lget chars (off + 1) = some l) (hh : h < 128) (hl : l < 256) :
+    decodeLength chars off false = some (h * 256 + l, 2) := by
+  obtain ⟨a, b⟩ := len8_long_bits h l hh hl
+  have hle : h * 256 + l ≤ 0x7FFF := by omega
+  simp [decodeLength, h0, h1, a, b, hle]
 
 theorem and_80_small (x : Nat) (h : x < 128) : x &&& 0x80 = 0 := by
   have key : ∀ y : Fin 128, y.val &&& 0x80 = 0 := by decide +kernel
@@ -105,7 +129,7 @@ theorem lget_drop (chars : List Nat) (off j : Nat) : lget chars (off + j) = (cha
 theorem getString16_of {pl : Pool} {idx off n : Nat} {units rest : List Nat}
     (hu : pl.utf8 = false) (ho : pl.offsets[idx]? = some off) (hc : (idx : Int) < pl.count)
     (hch : pl.chars.drop off = enc16 n ++ (units ++ ([0, 0] ++ rest)))
-    (hlen : units.length = 2 * n) (hn : n < 128) :
+    (hlen : units.length = 2 * n) (hn : n < 0x8000) :
     pl.getString idx = some (utf16ToUtf8 (unitsOf units)) := by
   have hne : ¬ (pl.offsets.isEmpty ∨ (idx : Int) ≥ pl.count) := by
     intro h
@@ -145,10 +169,36 @@ theorem getString16_of {pl : Pool} {idx off n : Nat} {units rest : List Nat}
   rw [show n * 2 = units.length by omega, List.take_left]
 
 
+theorem encLen8_ne_nil (m : Nat) : ∃ x tl, encLen8 m = x :: tl := by
+  unfold encLen8; split <;> exact ⟨_, _, rfl⟩
+
+/-- `_decode_length(offset, 1)` on an encoded UTF-8 pool length (one- or two-byte form) -/
+theorem decodeLength_len8 {chars : List Nat} {off n x : Nat} {tl : List Nat} (hn : n < 0x8000)
+    (h : chars.drop off = encLen8 n ++ (x :: tl)) :
+    decodeLength chars off false = some (n, (encLen8 n).length) := by
+  by_cases hs : n < 0x80
+  · have e : encLen8 n = [n] := by simp [encLen8, hs]
+    rw [e] at h ⊢
+    have g0 : lget chars off = some n := by
+      have := lget_drop chars off 0; rw [h] at this; simpa using this
+    have g1 : lget chars (off + 1) = some x := by
+      have := lget_drop chars off 1; rw [h] at this; simpa using this
+    exact decodeLength_narrow_short g0 g1 (and_80_small n hs)
+  · have e : encLen8 n = [0x80 + n / 256, n % 256] := by simp [encLen8, hs]
+    rw [e] at h ⊢
+    have g0 : lget chars off = some (0x80 + n / 256) := by
+      have := lget_drop chars off 0; rw [h] at this; simpa using this
+    have g1 : lget chars (off + 1) = some (n % 256) := by
+      have := lget_drop chars off 1; rw [h] at this; simpa using this
+    have := decodeLength_narrow_long g0 g1 (by omega) (by omega)
+    rw [this]
+    simp only [List.length_cons, List.length_nil, Option.some.injEq, Prod.mk.injEq, and_true]
+    omega
+
 theorem getString8_of {pl : Pool} {idx off n m : Nat} {bytes rest : List Nat}
     (hu : pl.utf8 = true) (ho : pl.offsets[idx]? = some off) (hc : (idx : Int) < pl.count)
-    (hch : pl.chars.drop off = [n, m] ++ (bytes ++ ([0] ++ rest)))
-    (hlen : bytes.length = m) (hn : n < 128) (hm : m < 128) :
+    (hch : pl.chars.drop off = encLen8 n ++ (encLen8 m ++ (bytes ++ ([0] ++ rest))))
+    (hlen : bytes.length = m) (hn : n < 0x8000) (hm : m < 0x8000) :
     pl.getString idx = some bytes := by
   have hne : ¬ (pl.offsets.isEmpty ∨ (idx : Int) ≥ pl.count) := by
     intro h
@@ -159,25 +209,20 @@ theorem getString8_of {pl : Pool} {idx off n m : Nat} {bytes rest : List Nat}
     match bytes with
     | [] => exact ⟨0, rest, rfl⟩
     | x :: t => exact ⟨x, t ++ ([0] ++ rest), rfl⟩
-  have hch' : pl.chars.drop off = n :: m :: b0 :: tl := by
-    rw [hch, htl]; rfl
-  have g0 : lget pl.chars off = some n := by
-    have := lget_drop pl.chars off 0; rw [hch'] at this; simpa using this
-  have g1 : lget pl.chars (off + 1) = some m := by
-    have := lget_drop pl.chars off 1; rw [hch'] at this; simpa using this
-  have g2 : lget pl.chars (off + 1 + 1) = some b0 := by
-    have := lget_drop pl.chars off 2; rw [hch'] at this; simpa using this
-  have hdl1 := decodeLength_narrow_short g0 g1 (and_80_small n hn)
-  have hdl2 := decodeLength_narrow_short g1 g2 (and_80_small m hm)
-  have hd2 : pl.chars.drop (off + 1 + 1) = bytes ++ ([0] ++ rest) := by
-    rw [Nat.add_assoc]; exact drop_at' 2 hch rfl
-  have hd3 : pl.chars.drop (off + 1 + 1 + m) = [0] ++ rest := drop_at' m hd2 hlen
-  have hlen2 : ¬ (pl.chars.length < off + 1 + 1 + m) := by
+  obtain ⟨m0, mtl, hmtl⟩ := encLen8_ne_nil m
+  have hdl1 := decodeLength_len8 (chars := pl.chars) (off := off) (x := m0) (tl := mtl ++ (bytes ++ ([0] ++ rest))) hn
+    (by rw [hch, hmtl]; rfl)
+  have hd1 : pl.chars.drop (off + (encLen8 n).length) = encLen8 m ++ (bytes ++ ([0] ++ rest)) := drop_at hch
+  have hdl2 := decodeLength_len8 (chars := pl.chars) (off := off + (encLen8 n).length) (x := b0) (tl := tl) hm
+    (by rw [hd1, htl])
+  have hd2 : pl.chars.drop (off + (encLen8 n).length + (encLen8 m).length) = bytes ++ ([0] ++ rest) := drop_at hd1
+  have hd3 : pl.chars.drop (off + (encLen8 n).length + (encLen8 m).length + m) = [0] ++ rest := drop_at' m hd2 hlen
+  have hlen2 : ¬ (pl.chars.length < off + (encLen8 n).length + (encLen8 m).length + m) := by
     have := congrArg List.length hd3
     simp only [List.length_drop, List.length_append, List.length_cons, List.length_nil] at this
     omega
-  have gz : lget pl.chars (off + 1 + 1 + m) = some 0 := by
-    have := lget_drop pl.chars (off + 1 + 1 + m) 0; rw [hd3] at this; simpa using this
+  have gz : lget pl.chars (off + (encLen8 n).length + (encLen8 m).length + m) = some 0 := by
+    have := lget_drop pl.chars (off + (encLen8 n).length + (encLen8 m).length + m) 0; rw [hd3] at this; simpa using this
   unfold Pool.getString
   rw [if_neg hne, ho]
   simp only [hu, if_true, hdl1, hdl2, Option.bind_eq_bind, Option.bind_some]
@@ -185,13 +230,12 @@ theorem getString8_of {pl : Pool} {idx off n m : Nat} {bytes rest : List Nat}
   simp only [Option.bind_some, ne_eq, not_true_eq_false, if_false, Option.pure_def, hd2]
   rw [← hlen, List.take_left]
 
-
 theorem flatMap_enc16_length (s : List Nat) : (s.flatMap enc16).length = 2 * s.length := by
   induction s with
   | nil => rfl
   | cons c r ih => simp only [List.flatMap_cons, List.length_append, ih, List.length_cons]; simp [enc16]; omega
 
-theorem wfStr_iff (s : List Nat) : wfStr s = true ↔ s.length < 128 ∧ (utf8s s).length < 128 ∧ s.all bmp = true := by
+theorem wfStr_iff (s : List Nat) : wfStr s = true ↔ s.length < 0x8000 ∧ (utf8s s).length < 0x8000 ∧ s.all bmp = true := by
   simp [wfStr, and_assoc]
 
 theorem bmp_lt {c : Nat} (h : bmp c = true) : c < 65536 := by
@@ -215,7 +259,7 @@ theorem pool_getString (u8 : Bool) (strs : List (List Nat)) (hwf : strs.all wfSt
       unitsOf_enc _ (fun c hc => bmp_lt ((List.all_eq_true.mp h3) c hc)), utf16ToUtf8_bmp _ h3]
   | true =>
     have hch' : (poolOf true strs).chars.drop off
-        = [strs[i].length, (utf8s strs[i]).length] ++ (utf8s strs[i] ++ ([0] ++ rest)) := by
+        = encLen8 strs[i].length ++ (encLen8 (utf8s strs[i]).length ++ (utf8s strs[i] ++ ([0] ++ rest))) := by
       rw [hch]; simp [encStr, encStr8]
     rw [getString8_of rfl ho hcount hch' rfl h1 h2]
 
